@@ -207,7 +207,9 @@ func c03Data(spacing string) []core.SeriesSpec {
 		single := core.SeriesSpec{L: `a{l="2"}`, S: pts(p(300000, 42))}
 		// infinities of both signs (and NaN) next to each other
 		ext := core.SeriesSpec{L: `a{l="3"}`}
-		ev := []float64{1, math.Inf(1), math.Inf(-1), 2, math.Inf(-1), math.Inf(-1), 3, math.NaN(), math.Inf(1), 4, math.Inf(1), math.Inf(1), 1e300, -1e300, 5}
+		// (also runs of two and three ordinary NaN samples)
+		ev := []float64{1, math.Inf(1), math.Inf(-1), 2, math.Inf(-1), math.Inf(-1), 3, math.NaN(), math.Inf(1), 4, math.Inf(1), math.Inf(1), 1e300, -1e300, 5,
+			math.NaN(), math.NaN(), 6, math.NaN(), math.NaN(), math.NaN(), 7}
 		for i := 0; i < 45; i++ {
 			ext.S = append(ext.S, p(int64(i)*20000, ev[i%len(ev)]))
 		}
@@ -635,6 +637,12 @@ func c06Data() []core.SeriesSpec {
 		}
 		out = append(out, s)
 	}
+	// a label name that sorts before __name__
+	z := core.SeriesSpec{L: `a{Zone="x",l="3"}`}
+	for k := 0; k < 110; k++ {
+		z.S = append(z.S, p(int64(k)*30000, vals[(k+7)%len(vals)]))
+	}
+	out = append(out, z)
 	// a scalar source that is absent at some steps
 	b := core.SeriesSpec{L: `b{l="0"}`}
 	for k := 0; k < 110; k++ {
